@@ -521,6 +521,11 @@ fn compare_builds(
             if s == "*strict-cl-21*" && (c.0 || c.2) && (rejected_msg.contains(" in 64") || rejected_msg.starts_with("*macros*") || code.map(contains_quoted_64).unwrap_or(false)) {
                 return "strict-cl21-optimised/@-becomes-(q . 64)".to_string();
             }
+            if dialect_of(s).stepping.map(|x| x >= 23).unwrap_or(false) && c.0 && rejected_msg.contains("Unbound use of ") && rejected_msg.contains("_$_") && text_for(s).contains("(assign") {
+                // F37: CSE lifts a subexpression shared by two bindings of an assign out of the assign although it
+                // mentions a variable the assign binds; symptom: the optimised build is rejected with an unbound renamed variable
+                return "cse/assign-bound-variable-unbound-after-lifting".to_string();
+            }
             if c.1 {
                 let names = case.map(|cs| all_names(&cs.prog)).unwrap_or_default();
                 let leaked_value = matches!(got, Some(Out::Val(v)) if leaks_a_name(v, &names));
